@@ -16,6 +16,7 @@ import (
 	hcljson "github.com/hashicorp/hcl/v2/json"
 	"github.com/zclconf/go-cty/cty"
 
+	"github.com/hashicorp/hcl/v2/hclsyntax"
 	"hx/lib"
 	"hx/props/evalgen"
 )
@@ -88,6 +89,11 @@ func secretScope(r *lib.Rand, base evalgen.Scope) (evalgen.Scope, *secrets, []st
 		"inner": cty.ObjectVal(map[string]cty.Value{"token": m(sc.sv()), "id": m(sc.num())}),
 		"items": cty.ListVal([]cty.Value{m(sc.sv()), m(sc.sv())}),
 	})
+	// collections with exactly one element whose key / attribute name is the secret (descriptions of a value's
+	// shape name the attribute of a one-attribute object)
+	s["sec_obj1"] = m(cty.ObjectVal(map[string]cty.Value{sc.str(): cty.NumberIntVal(1)}))
+	s["sec_map1"] = m(cty.MapVal(map[string]cty.Value{sc.str(): cty.True}))
+	s["sec_tuple1"] = m(cty.TupleVal([]cty.Value{sc.sv()}))
 	s["sec_set"] = m(cty.SetVal([]cty.Value{sc.sv(), sc.sv()}))
 	s["sec_tuple"] = m(cty.TupleVal([]cty.Value{sc.sv(), sc.num(), cty.True}))
 	s["sec_objlist"] = m(cty.ListVal([]cty.Value{
@@ -156,7 +162,7 @@ func checkDiags(cx *lib.Ctx, diags hcl.Diagnostics, files map[string]*hcl.File, 
 		}
 		if t := leaked(d.Detail, sc); t != "" {
 			key := "leak:" + site(d.Summary) + "-detail"
-			if scopeHoldsUnmarked(d.EvalContext, t) {
+			if scopeHoldsUnmarked(d.EvalContext, t) && !ownCollectionMarked(d, files) {
 				// the secret reached this evaluation through a child-scope variable (for / dynamic-block
 				// iterator) that was bound without the marks of its collection: a different root cause
 				key += ":via-unmarked-scope-variable"
@@ -477,6 +483,7 @@ func run(cx *lib.Ctx) {
 	if t := d["generated:with-diagnostics"] + d["generated:no-diagnostics"]; t > 0 {
 		res.Notes = append(res.Notes, fmt.Sprintf("generated expressions with diagnostics: %.1f%%", 100*float64(d["generated:with-diagnostics"])/float64(t)))
 	}
+	corrFrags(cx)
 }
 
 // plant overwrites a random sub-expression with a reference to a secret variable.
@@ -549,6 +556,30 @@ func replay(cx *lib.Ctx, doc string) {
 		cx.Res.Sample(c.Src)
 		checkExprSource(cx, c.Src, c.Node, c.Scope, head.Extra.Secrets, "replay")
 	}
+}
+
+// ownCollectionMarked: the diagnostic comes from a for expression (its Context is the whole expression) whose
+// own collection evaluates to a value marked at the top.  The iteration variables are then bound unmarked too,
+// but the expression itself has the collection's marks at hand and is expected to withhold the key: a leak
+// here is not the recorded root cause (an *enclosing* scope's unmarked binding).
+func ownCollectionMarked(d *hcl.Diagnostic, files map[string]*hcl.File) bool {
+	if d.Summary != "Duplicate object key" || d.Context == nil || d.EvalContext == nil || d.EvalContext.Parent() == nil {
+		return false
+	}
+	f := files[d.Context.Filename]
+	if f == nil || d.Context.End.Byte > len(f.Bytes) || d.Context.Start.Byte > d.Context.End.Byte {
+		return false
+	}
+	e, diags := hclsyntax.ParseExpression(f.Bytes[d.Context.Start.Byte:d.Context.End.Byte], "", hcl.InitialPos)
+	if diags.HasErrors() {
+		return false
+	}
+	fe, ok := e.(*hclsyntax.ForExpr)
+	if !ok {
+		return false
+	}
+	v, _, p := evalgen.SafeValue(fe.CollExpr, d.EvalContext.Parent())
+	return p == "" && v.IsMarked()
 }
 
 // scopeHoldsUnmarked reports whether some variable of the diagnostic's evaluation context (or a parent)
